@@ -1219,3 +1219,71 @@ func reconcileReturnsError(c *core.Ctx) {
 	w := core.MustPrecede(fn, func(in ssa.Instruction) bool { return in == conv }, func(in ssa.Instruction) bool { return in == upd })
 	c.Check(w == nil, "the model is converted before it is applied", at(c, upd), "", "HAProxyUpdate can run before the converters")
 }
+
+func init() {
+	addRule("C12", &core.Rule{ID: "C12.legacy-retry", Floor: 4, Run: legacyRetry,
+		Doc: "The legacy runtime has the same retry protocol: syncIngress re-enqueues itself on the error branch of HAProxyUpdate, reloadHAProxy on the error branch of Reload; both hold the model mutex with a deferred unlock; the converters run before the update."})
+}
+
+func legacyRetry(c *core.Ctx) {
+	for _, x := range []struct{ fn, call, queue string }{
+		{"HAProxyController.syncIngress", "HAProxyUpdate", "ingressQueue"},
+		{"HAProxyController.reloadHAProxy", "Reload", "reloadQueue"},
+	} {
+		fn := c.Fn("controller/legacy", x.fn)
+		if fn == nil {
+			continue
+		}
+		var step ssa.Instruction
+		for _, s := range core.Calls(fn, false) {
+			if s.Common().IsInvoke() && s.Common().Method.Name() == x.call {
+				step = s.Instr
+			}
+		}
+		if step == nil {
+			c.Violated(x.fn+" calls "+x.call, c.Pos(fn.Pos()), "call missing")
+			continue
+		}
+		ok := false
+		for _, s := range core.Calls(fn, false) {
+			cc := s.Common()
+			if cc.IsInvoke() && cc.Method.Name() == "AddAfter" && strings.HasSuffix(core.Key(cc.Value), "."+x.queue) {
+				ok = guardedBy(s.Instr, func(k string) bool { return strings.Contains(k, "."+x.call+"(") && strings.HasSuffix(k, " != nil)") }, true)
+			}
+		}
+		c.Check(ok, x.fn+" retries a failed "+x.call, at(c, step), "", "no "+x.queue+".AddAfter on the error branch of "+x.call+": a failed update is never retried in the legacy runtime")
+		c.Check(lockedAtEntryNamed(fn, "writeModelMutex"), x.fn+" holds the model mutex", c.Pos(fn.Pos()), "", "writeModelMutex is not locked (with deferred unlock) before the model is touched")
+	}
+}
+
+// lockedAtEntryNamed: the named mutex field is locked and its unlock deferred before the first call into the module.
+func lockedAtEntryNamed(fn *ssa.Function, field string) bool {
+	locked, deferred := false, false
+	for _, b := range fn.Blocks {
+		for _, in := range b.Instrs {
+			switch x := in.(type) {
+			case *ssa.Call:
+				n := core.CalleeName(&x.Call)
+				if n == "(*sync.Mutex).Lock" {
+					if _, f := core.FieldOf(x.Call.Args[0]); f == field {
+						locked = true
+						continue
+					}
+				}
+				if !locked && x.Call.IsInvoke() && strings.Contains(x.Call.Value.Type().String(), core.Module) {
+					name := x.Call.Method.Name()
+					if name == "HAProxyUpdate" || name == "Reload" || name == "Sync" || name == "AcmeUpdate" {
+						return false
+					}
+				}
+			case *ssa.Defer:
+				if core.CalleeName(&x.Call) == "(*sync.Mutex).Unlock" && locked {
+					if _, f := core.FieldOf(x.Call.Args[0]); f == field {
+						deferred = true
+					}
+				}
+			}
+		}
+	}
+	return locked && deferred
+}
